@@ -83,6 +83,12 @@ def image_outcomes(mod, fn, p):
     return outs
 
 
+def _ifexp_leaves(e):
+    if isinstance(e, ast.IfExp):
+        return _ifexp_leaves(e.body) + _ifexp_leaves(e.orelse)
+    return [e]
+
+
 def numeric_isinstance_ok(test):
     """isinstance(x, T): T must admit int and float (tuple with both, ValidTypes.NUMBERS, numbers.Real/Number)."""
     t = norm(test.args[1])
@@ -270,7 +276,7 @@ def run(repo, res, tier):
     for mn in ("__mul__", "__truediv__", "__add__", "__sub__", "__round__"):
         fn = iv.methods[mn]
         rets = [n for n in walk_no_nested(fn) if isinstance(n, ast.Return)]
-        ok = bool(rets) and all(isinstance(r.value, ast.Call) and norm(r.value.func) in ("type(self)", "Interval", "self.__class__") for r in rets)
+        ok = bool(rets) and all(isinstance(v, ast.Call) and norm(v.func) in ("type(self)", "Interval", "self.__class__") for r in rets for v in _ifexp_leaves(r.value))
         res.check("IMAGE", "Interval.%s constructs its result through the constructor" % mn, ok, mod, fn, "Interval.%s result construction" % mn, "the result bypasses the constructor, so start <= end (and the angle range) is not re-checked", qualname="Interval." + mn)
     # AngleInterval must not override arithmetic with unchecked versions
     for mn in ("__add__", "__sub__"):
